@@ -465,7 +465,7 @@ func (e *Engine) genFunc(c *Contract, fn *ssa.Function, mode Mode, known map[str
 			if len(fr.retStates) > 1 {
 				name = fmt.Sprintf("post:%d/r%d", i+1, k+1)
 			}
-			vc.oblige(name, rst.pc, t, "postcondition: "+q.Text)
+			vc.oblige(name, rst.pc, t, "postcondition: "+q.Text).Props = q.Props
 		}
 	}
 	_ = penv
@@ -770,4 +770,38 @@ func (e *Engine) initOnceNonNilError(gv *ssa.Global) bool {
 	}
 	res = stores == 1 && good
 	return res
+}
+
+// atomic.Bool stores its value as uint32; atomic.IntN as intN.
+func (e *Engine) atomicConv(v SV, ft, resT types.Type) SV {
+	if b, ok := resT.Underlying().(*types.Basic); ok && b.Info()&types.IsBoolean != 0 {
+		w, s, _ := intInfo(ft)
+		return &Sc{not(fmt.Sprintf("(= %s %s)", v.(*Sc).T, e.ar.ConstI(0, w, s)))}
+	}
+	return v
+}
+
+func (e *Engine) atomicConvBack(v SV, ft types.Type, isBool bool) SV {
+	if isBool {
+		w, s, _ := intInfo(ft)
+		return &Sc{ite(v.(*Sc).T, e.ar.ConstI(1, w, s), e.ar.ConstI(0, w, s))}
+	}
+	return v
+}
+
+// isVolatile: the field is declared `volatile` in the contract of the function
+// under verification (other goroutines may write it at any time).
+func (e *Engine) isVolatile(p *PtrSV) bool {
+	c := e.curContract
+	if c == nil || len(c.Volatile) == 0 {
+		return false
+	}
+	_, suffix := e.typeAtPath(p.Root, p.Path)
+	name := e.typeKey(p.Root) + suffix
+	for _, v := range c.Volatile {
+		if strings.HasSuffix(name, v) || strings.Contains(name, v+".") {
+			return true
+		}
+	}
+	return false
 }
